@@ -292,6 +292,10 @@ def _extract_unit(repo, unit, log, canary=False):
     try:
         text = auto_rules(text, ulog)
         text = apply_rewrites(text, unit.get("rewrites", []), ulog)
+        if unit.get("pub_fields"):
+            # R2-vis: private fields made `pub` (visibility only; needed for lemmas in a sibling module)
+            text, n = re.subn(r"(?m)^(\s*)(?!pub\b)(\w+\s*:\s)", r"\1pub \2", text)
+            ulog.append({"rule": "R2-vis", "before": "private fields", "after": f"pub ({n} fields)"})
         if unit.get("opaque"):
             # R16: body dropped, signature kept (assumed contract, L1)
             bo, bc = fn_body_open(text, unit.get("fn"))
